@@ -22,6 +22,9 @@ pub trait Src {
     /// `kani::assume` under Kani; natively a counterexample that violates an assumption
     /// is an encoding error and aborts the replay with exit status 3.
     fn assume(&mut self, cond: bool);
+    /// Role key of a violation about to be asserted: printed as `KEY=<k>` by the native replay
+    /// (matched against known_findings.txt by the driver); a no-op under Kani.
+    fn key(&mut self, _k: &str) {}
     /// An index below `n` (one `usize` draw + assumption).
     fn below(&mut self, n: usize) -> usize {
         let v = self.usize();
@@ -87,6 +90,9 @@ impl Src for ByteSrc {
           i32: i32, i64: i64, i128: i128, isize: isize, f32: f32, f64: f64);
     fn bool(&mut self) -> bool {
         self.take().first().copied().unwrap_or(0) != 0
+    }
+    fn key(&mut self, k: &str) {
+        println!("KEY={}", k);
     }
     fn assume(&mut self, cond: bool) {
         if !cond {
